@@ -42,6 +42,11 @@ type Sim struct {
 	Params map[string]any
 	// MaxSteps is the recommended bound on committed steps for one run.
 	MaxSteps int
+	// Sync, if set, refreshes Store variables that are carried by REAL resources (e.g. LocalShared managers) from
+	// those resources; called before the initial state is captured and after every committed step.
+	Sync func()
+	// AfterAbort, if set, is evaluated after every aborted attempt (which must have had no effect).
+	AfterAbort func(p *simsched.Proc, label string) []Violation
 }
 
 // Violation is a monitor report.
@@ -69,10 +74,25 @@ func (sim *Sim) Run(maxSteps int, capture bool) Outcome {
 		s.Shutdown()
 		return out
 	}
+	if sim.Sync != nil {
+		sim.Sync()
+	}
 	if capture {
 		out.States = append(out.States, s.TLAState())
 	}
+	if sim.AfterAbort != nil {
+		s.OnAbort = func(p *simsched.Proc, label string) error {
+			if vs := sim.AfterAbort(p, label); len(vs) > 0 {
+				out.Violations = append(out.Violations, vs...)
+				return fmt.Errorf("monitor: %s", vs[0].Desc)
+			}
+			return nil
+		}
+	}
 	s.OnCommit = func(st simsched.Step) error {
+		if sim.Sync != nil {
+			sim.Sync()
+		}
 		out.StepLog = append(out.StepLog, fmt.Sprintf("%s(%s)@%s", st.Proc.Arch.Name, st.Proc.Self.String(), st.Label))
 		if capture {
 			out.States = append(out.States, s.TLAState())
